@@ -145,6 +145,24 @@ def obj_attr(it: Any, o: Obj, attr: str, node: Any) -> Any:
             return lst if attr.startswith("named_") else [m for _n, m in lst]
 
         return A._Builtin(f"Module.{attr}", fn)
+    if "_children" in o.attrs and "_params" in o.attrs and attr in ("parameters", "named_parameters"):
+        # abstract nn.Module that lists its own parameters: own ones first, then the children's (de-duplicated)
+        def walk_params(m: Obj, prefix: str, seen: list):
+            out = []
+            for nm, p_ in m.attrs.get("_params", []):
+                if not any(p_ is x for x in seen):
+                    seen.append(p_)
+                    out.append((f"{prefix}{nm}", p_))
+            for nm, ch in m.attrs.get("_children", []):
+                if isinstance(ch, Obj):
+                    out += walk_params(ch, f"{prefix}{nm}.", seen)
+            return out
+
+        def pfn(it2, a, k, nd, o=o, attr=attr):
+            lst = walk_params(o, "", [])
+            return lst if attr.startswith("named_") else [p_ for _n, p_ in lst]
+
+        return A._Builtin(f"Module.{attr}", pfn)
     return TV(T("attr", (A._term(o), attr)), kind="opaque")
 
 
@@ -324,6 +342,13 @@ def call_ext(it: Any, f: ExtV, args: List[Any], kwargs: Dict[str, Any], node: An
         # a process-state query whose answer the scenario fixes (e.g. torch.is_grad_enabled)
         it.log("call", node, callee=name, args=args, kwargs=kwargs, bound=None, result=it.ext_results[name])
         return it.ext_results[name]
+    if name in ("torch.finfo", "torch.iinfo"):
+        # numeric limits of a dtype: `bits` is a positive integer fixed by the dtype (symbolic when the dtype is)
+        dt_ = args[0] if args else kwargs.get("type", ExtV("torch.float32"))
+        known_bits = {"torch.float16": 16, "torch.half": 16, "torch.bfloat16": 16, "torch.float32": 32, "torch.float": 32, "torch.float64": 64, "torch.double": 64, "torch.int8": 8, "torch.uint8": 8, "torch.int16": 16, "torch.int32": 32, "torch.int64": 64}
+        dn_ = dt_.name if isinstance(dt_, ExtV) else None
+        bits_ = known_bits.get(dn_) if dn_ in known_bits else sp.Symbol(f"bits({A.fmt(A._term(dt_))})", integer=True, positive=True)
+        return Obj("torch.finfo", attrs={"bits": bits_, "dtype": dt_}, term=T("call", (name, (("type", A._term(dt_)),))))
     if name in ("torch.utils.checkpoint.checkpoint", "torch.utils.checkpoint.checkpoint.checkpoint") and args:
         # activation checkpointing: checkpoint(fn, *args, **kw) computes fn(*args, **kw) (recomputed in backward);
         # its own keywords are not forwarded
@@ -505,7 +530,11 @@ def call_ext(it: Any, f: ExtV, args: List[Any], kwargs: Dict[str, Any], node: An
     if name == "copy.deepcopy" and args and isinstance(args[0], (Obj, dict, list)):
         from .fxmodel import deepcopy_model
 
-        res = deepcopy_model(it, args[0])
+        memo_ = args[1] if len(args) > 1 else kwargs.get("memo")
+        if memo_ is not None and not (isinstance(memo_, dict) and all(isinstance(k_, int) for k_ in memo_)):
+            raise A.Unsupported("copy.deepcopy with a memo that cannot be evaluated")
+        # (a caller-supplied memo maps id(original) -> the object to use in its place: entries are honoured)
+        res = deepcopy_model(it, args[0], memo_)
         it.log("call", node, callee=name, args=args, kwargs=kwargs, bound={"x": args[0]}, result=A._term(res))
         return res
     if name in ("torch.fx.node.map_arg", "torch.fx.node.map_aggregate", "torch.fx.map_arg", "torch.fx.map_aggregate"):
@@ -866,5 +895,10 @@ def call_ext(it: Any, f: ExtV, args: List[Any], kwargs: Dict[str, Any], node: An
             sz = bound.get("size") if bound else None
             shape = Shape(tuple(sz)) if isinstance(sz, (tuple, list)) else None
             dtype = canon_dtype(kwargs.get("dtype"))
+        if short in ("zeros", "ones", "empty", "full", "randn", "rand", "eye", "linspace", "logspace") and name.count(".") == 1:
+            # factory functions: the dtype argument, else the process-wide default dtype
+            dtype = canon_dtype(kwargs.get("dtype")) if kwargs.get("dtype") is not None else "default"
+        if short.endswith("_like") and first is not None and kwargs.get("dtype") is None:
+            dtype = first.dtype if first.dtype is not None else ("same", first.term)
         return TV(term, shape=shape, dtype=dtype)
     return Obj(name, term=term)
